@@ -961,6 +961,10 @@ Box<ITV>::relation_with(const Constraint& c) const {
   if (Box_Helpers::extract_interval_constraint(c, c_num_vars, c_only_var)) {
     if (c_num_vars == 0) {
       // c is a trivial constraint.
+      if (c.is_equality() && c.inhomogeneous_term() != 0) {
+        // The equality `b = 0', with `b != 0', is unsatisfiable.
+        return Poly_Con_Relation::is_disjoint();
+      }
       switch (sgn(c.inhomogeneous_term())) {
       case -1:
         return Poly_Con_Relation::is_disjoint();
